@@ -7,6 +7,7 @@
   (`lparse`, `lparseC`) is a function of (grammar, source, expression, offset) by construction.
 -/
 import Abnf.RuleResult
+import Abnf.Theorems.C08
 namespace Abnf.C07
 
 /-- The tree and end returned by `parse` do not depend on the iteration order of the match set. -/
@@ -38,6 +39,25 @@ consumer that picks by end gets the same tree whatever order the listing is cons
 theorem listed_ends_distinct (G : Grammar) (hG : GBoundsOk G) (f : Nat) (s : Src) (r i : Nat)
     (hi : i ≤ s.length) (out : List Match) (h : lparse G f s (.ref r) i = .ok out) : (stops out).Nodup :=
   (lparse_ref_ok hG hi h).stops_nodup
+
+/-- **Whatever the hash order and whatever was parsed before**: `Rule.parse` run against ANY sound cache state (the state
+after any history of requests, abandoned attempts, clears, limit changes and evictions - C08) and with ANY iteration order of
+the match set returns one and the same result: that of the cache-free engine with the canonical order. -/
+theorem parse_deterministic (G : Grammar) (hB : GBoundsOk G) (repOf : Nat → Option (Nat × Option Nat × Expr))
+    (hG : GCidsOk repOf G) (f : Nat) (s : Src) (r i : Nat) (hi : i ≤ s.length) (st : LState)
+    (hinv : WInv (GoodVal G repOf) st) (hne : lparse G f s (.ref r) i ≠ .oof)
+    (p : List Match → List Match) (hp : SameMembers p) :
+    pickWith p (lparseC lruOps G f s (.ref r) i st).1 = parse G f s r i := by
+  rw [(C08.request_transparent G repOf hG f s (.ref r) CidsOk.ref i st hinv hne).1]
+  exact parse_order_independent G hB f s r i hi p id hp (fun _ _ => Iff.rfl)
+
+/-- two processes: different hash orders `p1 p2`, different histories (cache states `st1 st2`) - same result -/
+theorem two_processes_agree (G : Grammar) (hB : GBoundsOk G) (repOf : Nat → Option (Nat × Option Nat × Expr))
+    (hG : GCidsOk repOf G) (f : Nat) (s : Src) (r i : Nat) (hi : i ≤ s.length) (st1 st2 : LState)
+    (h1 : WInv (GoodVal G repOf) st1) (h2 : WInv (GoodVal G repOf) st2) (hne : lparse G f s (.ref r) i ≠ .oof)
+    (p1 p2 : List Match → List Match) (hp1 : SameMembers p1) (hp2 : SameMembers p2) :
+    pickWith p1 (lparseC lruOps G f s (.ref r) i st1).1 = pickWith p2 (lparseC lruOps G f s (.ref r) i st2).1 := by
+  rw [parse_deterministic G hB repOf hG f s r i hi st1 h1 hne p1 hp1, parse_deterministic G hB repOf hG f s r i hi st2 h2 hne p2 hp2]
 
 /-- non-vacuity: reversing the match list of an ambiguous rule does not change `parse` -/
 example :
